@@ -1,2 +1,95 @@
--- driver stub for C18: replaced by the real line-protocol driver
-def main : IO Unit := pure ()
+import Bermuda.Model.Json
+import Bermuda.Model.Units
+import Bermuda.Spec.C18
+open Lean Bermuda Bermuda.Units
+
+def numFromJson (j : Json) : Except String Num := do
+  let a ← j.getArr?
+  if a.size != 2 then throw "num: want pair"
+  match (← a[0]!.getStr?) with
+  | "i" => return .int (← jInt? a[1]!)
+  | "f" => return .flt (← ratFromJson a[1]!)
+  | t => throw s!"num: bad tag {t}"
+
+def ratsFromJson (j : Json) : Except String (List Rat) := do
+  (← j.getArr?).toList.mapM ratFromJson
+
+def ratsToJson (l : List Rat) : Json := Json.arr (l.map ratToJson).toArray
+
+def strsFromJson (j : Json) : Except String (List String) := do
+  (← j.getArr?).toList.mapM (·.getStr?)
+
+def optField {α} (j : Json) (k : String) (f : Json → Except String α) : Except String (Option α) :=
+  match j.getObjVal? k with
+  | .ok v => if v.isNull then .ok none else (f v).map some
+  | .error _ => .ok none
+
+def handle (j : Json) : Except String Json := do
+  let op ← (← j.getObjVal? "op").getStr?
+  match op with
+  | "currency" =>
+    let cells ← cellsFromJson (← j.getObjVal? "cells")
+    let target ← (← j.getObjVal? "target").getStr?
+    let rates ← (← (← j.getObjVal? "rates").getArr?).toList.mapM fun e => do
+      let a ← e.getArr?
+      if a.size != 2 then throw "rate: want pair"
+      return (← a[0]!.getStr?, ← numFromJson a[1]!)
+    let qrates := rates.map fun p => (p.1, p.2.toRat)
+    let impl ← optField j "impl" cellsFromJson
+    let spec := match impl with
+      | some o => Json.mkObj [("currency", Spec.C18.currencySpec Spec.C18.moneyFields target qrates cells o)]
+      | none => Json.null
+    return Json.mkObj [("model", exceptToJson cellsToJson (convertCurrency cells target rates)),
+                       ("mustRefuse", Spec.C18.currencyMustRefuse target qrates cells), ("spec", spec)]
+  | "disagg" =>
+    let cells ← cellsFromJson (← j.getObjVal? "cells")
+    let res ← (← j.getObjVal? "res").getNat?
+    let weights ← optField j "weights" fun w => do (← w.getArr?).toList.mapM numFromJson
+    let fields ← optField j "fields" strsFromJson
+    let tol ← ratFromJson (← j.getObjVal? "tol")
+    let impl ← optField j "impl" cellsFromJson
+    let agg ← optField j "agg" cellsFromJson
+    let fs := fields.getD Generated.Units.defaultInterpolationFields
+    let spec := match impl with
+      | some o => Json.mkObj ([("sum", Json.bool (Spec.C18.disaggSpec res fs tol cells o))] ++
+          (match agg with
+           | some a => [("aggBack", Json.bool (Spec.C18.aggBackSpec res fs tol cells a))]
+           | none => []))
+      | none => Json.null
+    return Json.mkObj [("model", exceptToJson cellsToJson (disaggregateExperience cells res weights fields)),
+                       ("spec", spec)]
+  | "policyYear" =>
+    let cells ← cellsFromJson (← j.getObjVal? "cells")
+    let len ← (← j.getObjVal? "policyLen").getNat?
+    let origin ← Date.fromJson (← j.getObjVal? "origin")
+    let cont ← (← j.getObjVal? "continuous").getBool?
+    let tol ← ratFromJson (← j.getObjVal? "tol")
+    let impl ← optField j "impl" cellsFromJson
+    let spec := match impl with
+      | some o => Json.mkObj [("conserves", Json.bool (Spec.C18.policyYearSpec tol cells o))]
+      | none => Json.null
+    return Json.mkObj [("model", exceptToJson cellsToJson (aqToPolicyYear cells len origin cont)),
+                       ("covered", Json.bool (Spec.C18.policyCovered cells len origin cont)), ("spec", spec)]
+  | "premium" =>
+    let vol ← ratFromJson (← j.getObjVal? "vol")
+    let wp ← ratsFromJson (← j.getObjVal? "wp")
+    let wres ← (← j.getObjVal? "wres").getNat?
+    let ep ← ratsFromJson (← j.getObjVal? "ep")
+    let eres ← (← j.getObjVal? "eres").getNat?
+    let ores ← (← j.getObjVal? "ores").getNat?
+    let offset ← jInt? (← j.getObjVal? "offset")
+    let cont ← (← j.getObjVal? "continuous").getBool?
+    let tol ← ratFromJson (← j.getObjVal? "tol")
+    let impl ← optField j "impl" fun v => do
+      let a ← v.getArr?
+      if a.size != 2 then throw "premium impl: want [written, earned]"
+      return (← ratsFromJson a[0]!, ← ratsFromJson a[1]!)
+    let spec := match impl with
+      | some (w, e) => Json.mkObj [("premium", Json.bool (Spec.C18.premiumSpec tol vol w e))]
+      | none => Json.null
+    let model := programEarnedPremium vol wp wres ep eres ores offset cont
+    return Json.mkObj [("model", exceptToJson (fun (p : List Rat × List Rat) => Json.arr #[ratsToJson p.1, ratsToJson p.2]) model),
+                       ("spec", spec)]
+  | o => throw s!"unknown op {o}"
+
+def main : IO Unit := serve handle
